@@ -5,7 +5,7 @@
 import glob, importlib, json, re, subprocess, sys
 sys.path.insert(0, "/verif")
 rules = ["| property | rule | what it decides | instance floor |", "|---|---|---|---|"]
-for i in range(1, 18):
+for i in list(range(1, 18)) + [19]:
     m = importlib.import_module("hsa.props.c%02d" % i)
     for r in m.rules():
         rules.append("| C%02d | %s | %s | %d |" % (i, r.id, r.title, r.floor))
